@@ -16,7 +16,7 @@ from ..model import AnalysisError, unparse
 from ..report import RuleResult
 from ..roles import param
 from ._c16_seq import paired_offset
-from ._c16_more import drape_offsets, geometry_kept, grouping_key
+from ._c16_more import drape_offsets, geometry_kept, grouping_key, same_inputs
 from ._c16_flow import _record_arg, element_vars, enclosing, fold_uses, iterates, prepared, reachable, resolve_call, static_value
 
 _SHIFTED = "shifted_cells__"  # stands for `<input>.cells + <offset>` inside an offset source (a local in the pinned tree)
@@ -688,6 +688,7 @@ def rule_prov(ctx) -> RuleResult:
     _data_offsets(ctx, res)
     _drape_reindex(ctx, res)
     drape_offsets(ctx, res)
+    same_inputs(ctx, res)
     return res
 
 
